@@ -1041,3 +1041,196 @@ Section TupleBounds.
     destruct (String.eqb s ","); [lia|]. destruct (String.eqb s "["); lia.
   Qed.
 End TupleBounds.
+
+(* ------------------------------------------------------------------------------------------------
+   (4) The descent fails only by running out of fuel: whenever one step of the value-completion model answers
+       "out of fuel" ([None]), one of the recursive calls it made did.  In particular no step fails by itself - not
+       the tuple slot lookup, not the recovery of text, not any scan over elements, items, parts or arguments - for
+       any constraint, expression, file content and cursor.  (With the bounds theorem above this is the model's
+       analogue of "completion inside a value returns a list for every input".) *)
+Section NoInternalFailure.
+  Variable prefill : bool.
+  Variable file : bytes.
+  Variable opens : range_table.
+  Variable empties : list range.
+  Variable vals : list (range * sexp).
+  Variable funcs : fsigs.
+  Variable parens : range_table.
+  Variable cparens : paren_table.
+  Variable p : pos.
+
+  Lemma nn_ret l : vret l <> None. Proof. discriminate. Qed.
+  Lemma nn_nil : vnil <> None. Proof. discriminate. Qed.
+  Lemma nn_skip : vskip <> None. Proof. discriminate. Qed.
+  Lemma nn_app a b : a <> None -> b <> None -> vapp a b <> None.
+  Proof. intros Ha Hb. destruct a as [[x|]|]; destruct b as [[y|]|]; cbn; congruence. Qed.
+
+  Section StepN.
+    Variable rec : constraint -> cexpr -> vres.
+    Hypothesis Hrec : forall c e, rec c e <> None.
+    Variable rec_td : cexpr -> vres.
+    Hypothesis Hrec_td : forall e, rec_td e <> None.
+
+    Ltac nn :=
+      repeat first
+        [ assumption | apply nn_ret | apply nn_nil | apply nn_skip | apply Hrec | apply Hrec_td
+        | apply nn_app
+        | match goal with |- (match ?x with _ => _ end) <> None => destruct x eqn:? end
+        | match goal with |- (if ?b then _ else _) <> None => destruct b eqn:? end
+        | match goal with |- (let '(_, _) := ?y in _) <> None => destruct y end ].
+
+    Lemma complete_bool_nn af at' x : complete_bool vals p af at' x <> None.
+    Proof. unfold complete_bool. nn. Qed.
+
+    Lemma literal_type_nn t skip e : literal_type_cands vals p rec t skip e <> None.
+    Proof. destruct e as [|x]; cbn [literal_type_cands]; [nn|]. destruct t; try apply complete_bool_nn; nn. Qed.
+
+    Lemma literal_value_nn v t e : literal_value_cands vals p v t e <> None.
+    Proof. destruct e as [|x]; cbn [literal_value_cands]; [nn|]. destruct t; try (destruct (bool_of_val v); [apply complete_bool_nn|apply nn_skip]); nn. Qed.
+
+    Lemma keyword_nn kw e : keyword_cands p kw e <> None.
+    Proof. destruct e as [|x]; cbn [keyword_cands]; nn. Qed.
+
+    Lemma one_of_nn cs e : one_of_cands rec cs e <> None.
+    Proof. induction cs as [|c r IH]; cbn [one_of_cands]; [apply nn_nil|apply nn_app; [apply Hrec|exact IH]]. Qed.
+
+    Lemma list_nn k self elem e : list_cands prefill file opens empties p rec k self elem e <> None.
+    Proof. destruct e as [|x]; cbn [list_cands]; nn. Qed.
+
+    Lemma tuple_nn self cs e : tuple_cands prefill file opens empties p rec self cs e <> None.
+    Proof.
+      destruct e as [|x]; cbn [tuple_cands]; [nn|].
+      destruct (se_node x); try apply nn_nil. destruct cs as [|c0 cr]; [apply nn_nil|].
+      destruct (negb _); [apply nn_nil|]. destruct elems as [|e0 es]; [apply Hrec|].
+      destruct (Nat.ltb (length (c0 :: cr)) (length (e0 :: es))) eqn:El; [apply nn_nil|].
+      destruct (tuple_at _ _ _ _ _ _ _ _) as [y c1|le li] eqn:Et; [apply Hrec|].
+      destruct (Z.leb _ _); [apply nn_nil|].
+      destruct (Nat.eqb (length (e0 :: es)) (length (c0 :: cr))) eqn:Ee; [apply nn_nil|].
+      destruct (trim_right_set _ _) as [|b0 bs] eqn:Etr; [apply nn_nil|].
+      match goal with |- (match nth_error ?l ?i with _ => _ end) <> None => destruct (nth_error l i) as [c1|] eqn:En end; [apply Hrec|].
+      exfalso. apply Nat.ltb_ge in El. apply Nat.eqb_neq in Ee.
+      refine (tuple_slot_declared file empties p (e0 :: es) (c0 :: cr) le li (string_of_bytes (b0 :: bs)) _ _ _ En); [discriminate|lia|].
+      right. eexists. exact Et.
+    Qed.
+
+    Lemma map_items_nn elem interp items : forall rcv,
+      match map_items empties p rec elem interp items rcv with IReturn r => r <> None | IFall _ => True end.
+    Proof.
+      induction items as [|[kr k v] r IH]; intros rcv; cbn [map_items]; [exact I|].
+      destruct (_ && _); [apply nn_nil|]. destruct (Z.ltb _ _); [exact I|].
+      destruct (contains_pos kr p); [nn|]. destruct (at_or_end _ _); [apply Hrec|apply IH].
+    Qed.
+
+    Lemma map_nn self elem interp e : map_cands prefill file opens empties p rec self elem interp e <> None.
+    Proof.
+      destruct e as [|x]; cbn [map_cands]; [nn|].
+      destruct (se_node x); try apply nn_nil. destruct (negb _); [apply nn_nil|]. destruct elem as [ec|]; [|apply nn_nil].
+      cbv zeta. destruct items as [|it its].
+      - destruct (trim_space _ _); [apply nn_ret|]. destruct (last_is _ _); [apply Hrec|].
+        match goal with |- context [map_items ?a ?b ?c0 ?d ?e0 ?f ?g] =>
+          pose proof (map_items_nn d e0 f g) as Hm; destruct (map_items a b c0 d e0 f g); [exact Hm|nn] end.
+      - match goal with |- context [map_items ?a ?b ?c0 ?d ?e0 ?f ?g] =>
+          pose proof (map_items_nn d e0 f g) as Hm; destruct (map_items a b c0 d e0 f g); [exact Hm|nn] end.
+    Qed.
+
+    Lemma object_items_nn ats interp items : forall st,
+      match object_items prefill file empties p rec ats interp items st with OReturn r => r <> None | OFall _ => True end.
+    Proof.
+      induction items as [|[kr k v] r IH]; intros st; cbn [object_items]; [exact I|].
+      destruct (_ && _); [apply nn_nil|]. destruct (os_next st); [apply IH|]. destruct (Z.ltb _ _); [apply IH|].
+      destruct (contains_pos kr p); [nn|]. destruct (at_or_end _ _); [nn|apply IH].
+    Qed.
+
+    Lemma object_nn self ats interp e : object_cands prefill file opens empties p rec self ats interp e <> None.
+    Proof.
+      destruct e as [|x]; cbn [object_cands]; [nn|].
+      destruct (se_node x); try apply nn_nil. destruct (negb _); [apply nn_nil|]. destruct ats as [|a0 ats'] eqn:Ea; [apply nn_nil|]. rewrite <- Ea.
+      match goal with |- context [object_items ?a ?b ?c0 ?d ?e0 ?f ?g ?h ?i] =>
+        pose proof (object_items_nn f g h i) as Hm; destruct (object_items a b c0 d e0 f g h i); [exact Hm|nn] end.
+    Qed.
+
+    Lemma ref_items_nn e : ref_items p e <> None.
+    Proof. destruct e as [|x]; cbn [ref_items]; nn. Qed.
+    Lemma fn_items_nn e : fn_items p e <> None.
+    Proof. destruct e as [|x]; cbn [fn_items]; nn. Qed.
+    Lemma index_nn e : index_cands empties rec e <> None.
+    Proof. destruct e as [|x]; cbn [index_cands]; nn. Qed.
+    Lemma leaf_nn t skip e : leaf_cands empties vals p rec t skip e <> None.
+    Proof. unfold leaf_cands. apply nn_app; [apply ref_items_nn|]. apply nn_app; [apply fn_items_nn|]. apply nn_app; [apply literal_type_nn|apply index_nn]. Qed.
+
+    Lemma call_nn x : call_cands file empties funcs parens p rec x <> None.
+    Proof. unfold call_cands. nn. Qed.
+
+    Lemma non_complex_nn t skip e : non_complex_cands file empties vals funcs parens p rec t skip e <> None.
+    Proof.
+      destruct e as [|x]; cbn [non_complex_cands]; [apply leaf_nn|].
+      pose proof (leaf_nn t skip (CExpr x)) as Hleaf. pose proof (call_nn x) as Hcall.
+      destruct (se_node x); try exact Hleaf; try exact Hcall; nn.
+    Qed.
+
+    Lemma any_nn t skip e : any_cands file empties vals funcs parens p rec t skip e <> None.
+    Proof.
+      unfold any_cands. destruct skip; [apply non_complex_nn|]. destruct e as [|x]; [apply non_complex_nn|].
+      pose proof (non_complex_nn t false (CExpr x)) as Hnc.
+      destruct t; try exact Hnc; destruct (se_node x); try exact Hnc; try apply Hrec.
+    Qed.
+
+    Lemma step_nn c e : step_cands prefill file opens empties vals funcs parens p rec rec_td c e <> None.
+    Proof.
+      destruct c; cbn [step_cands].
+      - apply any_nn. - apply literal_type_nn. - apply literal_value_nn. - apply keyword_nn.
+      - destruct addr_scope; [apply nn_nil|apply ref_items_nn].
+      - apply Hrec_td. - apply list_nn. - apply list_nn. - apply tuple_nn. - apply map_nn. - apply object_nn. - apply one_of_nn.
+    Qed.
+  End StepN.
+
+  Section StepTdN.
+    Variable rec_td : cexpr -> vres.
+    Hypothesis Hrec_td : forall e, rec_td e <> None.
+
+    Ltac nnt :=
+      repeat first
+        [ assumption | apply nn_ret | apply nn_nil | apply nn_skip | apply Hrec_td
+        | match goal with |- (match ?x with _ => _ end) <> None => destruct x eqn:? end
+        | match goal with |- (if ?b then _ else _) <> None => destruct b eqn:? end
+        | match goal with |- (let '(_, _) := ?y in _) <> None => destruct y end ].
+
+    Lemma td_items_nn items : forall rcv ll,
+      match td_items empties p rec_td items rcv ll with DReturn r => r <> None | DFall _ _ _ => True end.
+    Proof.
+      induction items as [|[kr k v] r IH]; intros rcv ll; cbn [td_items]; [exact I|].
+      destruct (_ && _); [apply nn_nil|]. destruct (Z.ltb _ _); [exact I|].
+      destruct (contains_pos kr p); [apply nn_nil|]. destruct (at_or_end _ _); [apply Hrec_td|apply IH].
+    Qed.
+
+    Lemma type_decl_nn e : type_decl_cands file opens empties cparens p rec_td e <> None.
+    Proof.
+      destruct e as [|x]; cbn [type_decl_cands]; [apply nn_ret|].
+      destruct (se_node x); try apply nn_nil; [nnt|].
+      destruct (_ || _); [apply nn_ret|]. destruct (lookup_parens _ _) as [[o c0]|]; [|apply nn_nil].
+      destruct (_ && _); [|apply nn_nil]. destruct (is_elem_type_name _); [nnt|].
+      destruct (String.eqb _ "object").
+      - unfold object_td. destruct args as [|a [|]]; try apply nn_nil; [apply nn_ret|].
+        destruct (se_node a); try apply nn_nil. destruct (negb _); [apply nn_nil|]. cbv zeta.
+        destruct items as [|it its].
+        + destruct (trim_space _ _); [apply nn_ret|]. destruct (last_is _ _); [apply nn_ret|].
+          match goal with |- context [td_items ?a0 ?b ?c1 ?d ?e0 ?f] =>
+            pose proof (td_items_nn d e0 f) as Hm; destruct (td_items a0 b c1 d e0 f); [exact Hm|nnt] end.
+        + match goal with |- context [td_items ?a0 ?b ?c1 ?d ?e0 ?f] =>
+            pose proof (td_items_nn d e0 f) as Hm; destruct (td_items a0 b c1 d e0 f); [exact Hm|nnt] end.
+      - destruct (String.eqb _ "tuple"); [|apply nn_nil]. unfold tuple_td. nnt.
+    Qed.
+  End StepTdN.
+
+  (* no step fails by itself: if nothing fails with fuel n, nothing fails with fuel n+1 *)
+  Theorem type_cands_no_internal_failure n :
+    (forall e', type_cands file opens empties cparens p n e' <> None) ->
+    forall e, type_cands file opens empties cparens p (S n) e <> None.
+  Proof. intros H e. cbn [type_cands]. apply type_decl_nn. exact H. Qed.
+
+  Theorem value_cands_no_internal_failure n :
+    (forall c' e', value_cands prefill file opens empties vals funcs parens cparens p n c' e' <> None) ->
+    (forall e', type_cands file opens empties cparens p n e' <> None) ->
+    forall c e, value_cands prefill file opens empties vals funcs parens cparens p (S n) c e <> None.
+  Proof. intros H Ht c e. cbn [value_cands]. apply step_nn; [exact H|exact Ht]. Qed.
+End NoInternalFailure.
